@@ -617,11 +617,17 @@ class Fn:
             hops = 0
             while df is not None and df[0] == "assign" and hops < 6:
                 rv = df[3]
-                if rv["k"] == "use" and rv["op"]["k"] in ("copy", "move") and not rv["op"]["place"]["proj"] \
-                        and not self.is_user(rv["op"]["place"]["local"]) and t["discr_ty"] == "bool":
-                    nxt = self._single_def(rv["op"]["place"]["local"], df[1])
+                if rv["k"] == "use" and rv["op"]["k"] in ("copy", "move") and not rv["op"]["place"]["proj"] and t["discr_ty"] == "bool":
+                    src_l = rv["op"]["place"]["local"]
+                    nxt = self._single_def(src_l, df[1])
                     if nxt is None:
                         break
+                    if self.is_user(src_l):
+                        # `let differs = a != b; if differs` tests the comparison; a flag that is
+                        # assigned constants stays a flag
+                        if not (len(self.defs.get(src_l, ())) == 1 and
+                                ((nxt[0] == "assign" and nxt[3]["k"] in ("binop", "unop")) or nxt[0] == "call")):
+                            break
                     df = nxt
                     hops += 1
                     continue
